@@ -158,7 +158,8 @@ def build_all(force=False):
         # 3. Coq: full .vo build, keep going to learn every file that fails
         write_coqproject()
         rc, out = sh("coq_makefile -f _CoqProject -o Makefile", cwd=COQ, timeout=60)
-        rc, out = sh("timeout 1500 make -k -j16 2>&1", cwd=COQ, timeout=1600)
+        # one file never gets more than five minutes (a proof that starts computing on generated data must fail, not stall)
+        rc, out = sh("timeout 1500 make -k -j16 COQC='timeout 300 coqc' 2>&1", cwd=COQ, timeout=1600)
         b.ok["coq"] = rc == 0
         b.logs["coq"] = out[-6000:]
         failed = re.findall(r'File "\./(theories/[^"]+\.v)", line \d+, characters [\d-]+:\s*\n\s*Error', out)
